@@ -189,6 +189,7 @@ class World:
         self.tolerate = set(self.opts.get("tolerate", []))
         self.known_hits = Counter()
         self.flags_used = set()
+        self.subscribed_leaf_deleted = set()
 
     # ------------------------------------------------------------ plumbing
     def viol(self, props, kind, detail, **data):
@@ -921,6 +922,7 @@ class World:
             if b is not None and b.noselect:
                 b.noselect = False
                 b.msgs = []
+            self.subscribed_leaf_deleted.discard(name)
             self.stats["creates"] += 1
         return r
 
@@ -939,6 +941,8 @@ class World:
                     o.selected = None
                     o.view = None
                     o.deleted_under = True
+            if b.subscribed and not self.has_inferiors(name) and "keep-subscribed" not in self.tolerate:
+                self.subscribed_leaf_deleted.add(name)
             if self.has_inferiors(name) or (b.subscribed and "keep-subscribed" in self.tolerate):
                 b.noselect = True
                 b.msgs = []
